@@ -123,6 +123,23 @@ def lean_files():
     return sorted(r)
 
 
+def module_closure(roots):
+    """Lean source files of this project transitively imported by the given modules."""
+    seen, todo = {}, list(roots)
+    while todo:
+        m = todo.pop()
+        if m in seen:
+            continue
+        path = os.path.join(LEAN, *m.split(".")) + ".lean"
+        if not os.path.exists(path):
+            continue
+        seen[m] = path
+        for im in re.findall(r"^\s*import\s+([A-Za-z0-9_.]+)", open(path).read(), flags=re.M):
+            if im.split(".")[0] in ("Grass", "GrassProofs", "Drivers"):
+                todo.append(im)
+    return sorted(seen.values())
+
+
 def lake_build(targets, timeout=3000):
     with Lock("lake"):
         rc, out = sh(["lake", "build"] + list(targets), cwd=LEAN, timeout=timeout)
@@ -176,7 +193,13 @@ def prove(prop, cores=(), extra_targets=()):
         res["lean_error"] = "\n".join(l for l in out.split("\n") if not l.startswith("trace:"))[-4000:]
         res["wall_s"] = time.time() - t0
         return res
-    res["forbidden"] = scan_forbidden(lean_files())
+    core_mods = {"media": "Media", "num": "Num", "units": "Units", "value": "Value", "blt": "Builtins",
+                 "color": "Color", "calc": "Calc", "import": "Import", "scope": "Scope", "eval": "Eval",
+                 "csstree": "CssTree", "ser": "Serialize", "sel": "Selector", "ext": "Extend",
+                 "module": "Module", "lex": "Lexer", "diag": "Diag", "cli": "Cli", "intern": "Interner"}
+    res["scanned_files"] = [os.path.relpath(f, VERIF) for f in module_closure(
+        [f"GrassProofs.{prop}"] + [f"Drivers.{core_mods[c]}" for c in cores if c in core_mods])]
+    res["forbidden"] = scan_forbidden([os.path.join(VERIF, f) for f in res["scanned_files"]])
     ok, thms, raw = audit_axioms(prop)
     res["theorems"] = thms
     if not ok:
@@ -543,6 +566,7 @@ class Check:
             "tools/ (python orchestrator, generators, canonicalisers)", "runner/ (Rust, public API only)",
             "hand-written model Grass/*.lean tied by the correspondence run"]
         cov["theorems"] = {k.split(".")[-1]: v for k, v in thms.items()}
+        cov["lean_files_scanned"] = (self.proof or {}).get("scanned_files", [])
         cov["known_findings_seen"] = [k["id"] for k in self.known_seen]
         cov["notes"] = self.notes
         cov["modelled_sources_changed"] = self.changed
